@@ -40,7 +40,7 @@ META = dict(
                'reader._update_object_data_type', 'reader.TdmsReader._build_index', 'reader.TdmsReader._read_segment_metadata',
                'reader.TdmsReader._read_lead_in', 'tdms_segment.TdmsSegmentObject.read_raw_data_index', 'tdms_segment.TdmsSegment._calculate_chunks'],
     bounds=dict(quick='2-segment sequences also with the second segment big-endian; inductive step: 2 paths x 4 pre-states each x any previous list x 5 header kinds x list orders x 0-2 chunks, counts/'
-                      'totals/offsets unbounded solver integers (thorough: also 3 paths x 4 header kinds); all 2-segment sequences; 3-segment sequences whose middle segment is one of 14 configurations; 2 channels '
+                      'totals/offsets unbounded solver integers (thorough: also 3 paths x 4 header kinds, for a third of the pre-state combinations); all 2-segment sequences; 3-segment sequences whose middle segment is one of 14 configurations; 2 channels '
                       '(int32, int16), 1-2 values, 1-2 chunks; plus the object-order family (same objects listed in a different '
                       'order in a new-object-list segment, 3 channels)',
                 thorough='all 3-segment sequences'),
